@@ -199,3 +199,17 @@ def datatype_reuse(res, rng, n):
                     res.fail("spec", dict(t="bit_reuse", byte=byte, index=idx), dict(value=bool(byte & (1 << idx)), packed=hexs(bytes([byte]))),
                              dict(value=x.value, packed=x.to_bytes().hex()), "re-used bit array does not report the bit / byte it was last given")
         res.count("reuse:datatype:BitArray")
+    # the other order: position first (constructor index / next), unpack afterwards
+    for _ in range(max(2, n // 25)):
+        byte = rng.randrange(256)
+        idx = rng.randrange(8)
+        x = dt.BitArray(index=idx) if rng.random() < 0.5 else dt.BitArray()
+        if x._index != idx:
+            x.next(idx)
+        x.unpack(bytes([byte]) + bytes(rng.randrange(256) for _ in range(rng.randint(0, 3))))
+        res.case(("bit_position_then_unpack", byte, idx), True)
+        want = dict(value=bool(byte & (1 << idx)), size=1 if idx == 7 else 0, packed=hexs(bytes([byte])))
+        got = dict(value=x.value, size=x.size, packed=hexs(x.to_bytes()))
+        if got != want:
+            res.fail("spec", dict(t="bit_reuse", order="position-then-unpack", byte=byte, index=idx), want, got,
+                     "a bit field positioned before it is unpacked does not report the bit at its position / the cursor size")
